@@ -134,6 +134,15 @@ def inline_new_functions(modules, baseline, log=None):
             for st in m.tree.body:
                 if isinstance(st, ast.FunctionDef) and '%s:%s' % (m.name, st.name) not in baseline and _shape_ok(st):
                     cands[(m.name, st.name)] = (m, st)
+        # new METHODS of existing classes, used only as self.m(...) inside that class
+        if _pass == 0:
+            for m in modules.values():
+                for cls in [c for c in m.tree.body if isinstance(c, ast.ClassDef)]:
+                    for meth in [f for f in cls.body if isinstance(f, ast.FunctionDef)]:
+                        if '%s:%s.%s' % (m.name, cls.name, meth.name) in baseline or not _shape_ok(meth) or not meth.args.args:
+                            continue
+                        if _inline_method(modules, m, cls, meth):
+                            done.append('%s:%s.%s' % (m.name, cls.name, meth.name))
         if not cands:
             break
         cand_names = {k[1] for k in cands}
@@ -173,6 +182,78 @@ def inline_new_functions(modules, baseline, log=None):
     if log is not None and done:
         log(done)
     return done
+
+
+def _inline_method(modules, m, cls, meth):
+    selfp = meth.args.args[0].arg
+    if meth.name.startswith('__') or any(isinstance(x, ast.Call) and isinstance(x.func, ast.Attribute) and x.func.attr == meth.name for x in ast.walk(meth)):
+        return False
+    # the name must not be used anywhere else in the package (subclass overrides, getattr, other receivers)
+    sites = []
+    for m2 in modules.values():
+        for n in ast.walk(m2.tree):
+            if isinstance(n, ast.FunctionDef) and n.name == meth.name and n is not meth:
+                return False
+            if isinstance(n, ast.Constant) and n.value == meth.name:
+                return False
+    allowed_attr = set()
+    for caller in [f for f in cls.body if isinstance(f, ast.FunctionDef) and f is not meth and f.args.args]:
+        cself = caller.args.args[0].arg
+        for blk in _blocks(caller):
+            for st in blk:
+                if isinstance(st, FuncTypes + (ast.ClassDef,)):
+                    continue
+                for c in _stmt_exprs(st):
+                    if isinstance(c, ast.Call) and isinstance(c.func, ast.Attribute) and c.func.attr == meth.name and isinstance(c.func.value, ast.Name) and c.func.value.id == cself:
+                        kind = None
+                        if isinstance(st, ast.Expr) and st.value is c:
+                            kind = 'expr'
+                        elif isinstance(st, ast.Assign) and st.value is c:
+                            kind = 'assign'
+                        elif isinstance(st, ast.Return) and st.value is c:
+                            kind = 'return'
+                        elif isinstance(st, (ast.Return, ast.Assign, ast.Expr, ast.AugAssign)) and _hoistable(st, c, None):
+                            kind = 'embedded'
+                        sites.append((caller, blk, st, kind, c, cself))
+                        allowed_attr.add(id(c.func))
+    if not sites:
+        return False
+    for m2 in modules.values():
+        for n in ast.walk(m2.tree):
+            if isinstance(n, ast.Attribute) and n.attr == meth.name and id(n) not in allowed_attr:
+                return False
+    single = _single_tail_return(meth)
+    h1 = meth
+    if not single and any(k not in ('return',) for (_c, _b, _s, k, _call, _cs) in sites):
+        h1 = _single_exit_copy(meth)
+        if h1 is None:
+            return False
+        single = True
+    if not all(k is not None and (single or k == 'return') for (_c, _b, _s, k, _call, _cs) in sites):
+        return False
+    # as a plain function: drop the self parameter, substitute the caller's self
+    for (caller, blk, st, kind, call, cself) in sites:
+        h = copy.deepcopy(meth if kind == 'return' else h1)
+        h.args.args = h.args.args[1:]
+        if len(h.args.defaults) > len(h.args.args):
+            return False
+        if selfp != cself:
+            h.body = [_Subst({selfp: ast.Name(id=cself, ctx=ast.Load())}, {}).visit(s) for s in h.body]
+        fake = copy.copy(call)
+        fake.func = ast.Name(id=meth.name, ctx=ast.Load())
+        if not _bindable(h, fake):
+            return False
+    for (caller, blk, st, kind, call, cself) in sites:
+        h = copy.deepcopy(meth if kind == 'return' else h1)
+        h.args.args = h.args.args[1:]
+        if selfp != cself:
+            h.body = [_Subst({selfp: ast.Name(id=cself, ctx=ast.Load())}, {}).visit(s) for s in h.body]
+        names = {x.id for x in ast.walk(caller) if isinstance(x, ast.Name)} | {a.arg for a in caller.args.args}
+        new = _expand(h, call, kind, st, names)
+        i = next(i for i, s_ in enumerate(blk) if s_ is st)
+        blk[i:i + 1] = new
+    cls.body = [f for f in cls.body if f is not meth] or [ast.Pass()]
+    return True
 
 
 def _find_sites(modules, hm, h):
@@ -248,8 +329,27 @@ def _eliminate_returns(stmts, res):
                 out.append(ast.copy_location(ast.If(test=st.test, body=b2, orelse=e), st))
                 return out
             return None
+        if isinstance(st, ast.Try) and i == len(stmts) - 1 and not st.finalbody and not st.orelse and any(isinstance(x, ast.Return) for x in ast.walk(st)):
+            # a try in tail position: each of its blocks is a tail block of its own
+            b = _eliminate_returns(st.body, res)
+            hs = []
+            for h_ in st.handlers:
+                hb = _eliminate_returns(h_.body, res)
+                if hb is None:
+                    return None
+                hs.append(ast.copy_location(ast.ExceptHandler(type=h_.type, name=h_.name, body=hb), h_))
+            if b is None:
+                return None
+            out.append(ast.copy_location(ast.Try(body=b, handlers=hs, orelse=[], finalbody=[]), st))
+            return out
+        if isinstance(st, ast.With) and i == len(stmts) - 1 and any(isinstance(x, ast.Return) for x in ast.walk(st)):
+            b = _eliminate_returns(st.body, res)
+            if b is None:
+                return None
+            out.append(ast.copy_location(ast.With(items=st.items, body=b), st))
+            return out
         if any(isinstance(x, ast.Return) for x in ast.walk(st)):
-            return None         # a return inside a loop / try / with
+            return None         # a return inside a loop / a try or with that is not in tail position
         out.append(st)
     # fell off the end
     out.append(ast.Assign(targets=[ast.Name(id=res, ctx=ast.Store())], value=ast.Constant(value=None)))
